@@ -24,7 +24,7 @@ COMPONENTS = dict(real=["hio.core.memo.memoing.Memoer (wiff, pick, verify, fuse,
                   stub=["datagram kernel and hostile sender (FakeDgram deliveries)"])
 ASSUMPTIONS = ["forging a valid Ed25519 signature is not attempted; tampering means altering signed bytes or re-signing with another key"]
 PROBES = ["mutation_in_signature", "mutation_in_body", "mutation_in_head", "truncation", "unknown_code", "ack_code", "gram_number_beyond_count",
-          "invalid_utf8_body", "resigned_by_other_key", "random_bytes", "hostile_before_genuine", "authic_receiver"]
+          "invalid_utf8_body", "resigned_by_other_key", "random_bytes", "complete_unsigned_memo", "authic_receiver_without_keys", "hostile_before_genuine", "authic_receiver"]
 BOUNDS = dict(quick=dict(memos=4, hostile=12), thorough=dict(memos=6, hostile=24))
 TIERS = dict(quick=dict(cases=30000, wall=60.0), thorough=dict(cases=1200000, wall=420.0))
 SIM_TIME_UNIT = "deliveries"
@@ -60,7 +60,12 @@ def run_case(tape, tier):
             assert pm.reopen()
             senders.append(dict(pm=pm, code=code, signed=signed, curt=curt, vid=vid if signed else None, old_keyage=old_keyage))
         evil_vid, evil_key = gr.make_identity(b"evil")
-        rx = peermemoing.PeerMemoer(name="rx", ha=("127.0.0.1", 55201), authic=authic, keep=keep)
+        # a receiver that requires signatures need not hold any key when every signer uses an identifier that carries its own
+        # verification key (non-transferable): then it is given none
+        lean = authic and all(sd["old_keyage"] is None for sd in senders) and tape.flag("receiver_without_keys", 1, 3)
+        if lean:
+            res.probes["authic_receiver_without_keys"] += 1
+        rx = peermemoing.PeerMemoer(name="rx", ha=("127.0.0.1", 55201), authic=authic, keep=None if lean else keep)
         assert rx.reopen()
         sent = []        # (text, vid)
         genuine = []     # (wire index, memo index, gn, count)
@@ -83,7 +88,13 @@ def run_case(tape, tier):
             src, dst, data = net.wire[wi]
             sd = sent[m][2]
             data = bytearray(data)
-            k = tape.draw("hostile_kind", 12)
+            k = tape.draw("hostile_kind", 13)
+            if k == 12:
+                # a complete memo that is not signed at all (a receiver that requires signatures must not deliver it)
+                plain = peermemoing.PeerMemoer(name="evilplain", ha=("127.0.0.1", 55299), code="bAAA", size=400)
+                data = bytearray(plain.rend("EVIL-unsigned memo %d" % m)[0])
+                kind = "complete_unsigned_memo"
+                return bytes(data), kind, src
             if k == 0:
                 i = tape.draw("mut_at", len(data))
                 data[i] ^= 1 + tape.draw("mut_xor", 255)
@@ -196,7 +207,7 @@ def run_case(tape, tier):
     else:
         if authic:
             for d in delivered:
-                if d[1] == evil_vid and d[0].startswith("EVIL"):
+                if d[1] == evil_vid and d[0].startswith("EVIL") and not d[0].startswith("EVIL-unsigned"):
                     continue     # a complete, validly signed memo of the other signer: authentic for its claimed signer
                 if d not in sent_pairs:
                     res.violate("inauthentic-memo-delivered", "receiver requiring signatures delivered %r signed by %s, which no sender sent "
